@@ -354,4 +354,6 @@ def encode_coder(spec: dict, data: bytes, password=None, rng=None):
         c = AES.new(key, AES.MODE_CBC, iv + bytes(16 - len(iv)))
         padded = data + bytes(-len(data) & 15)
         return M_AES, make_aes_props(cycles, salt, iv), c.encrypt(padded)
+    if m == "RAW":  # data passed through under an arbitrary method id (for unsupported-coder cases)
+        return bytes.fromhex(spec["id"]), (bytes.fromhex(spec["props"]) if spec.get("props") is not None else None), data
     raise ValueError("unknown coder spec %r" % (spec,))
